@@ -17,6 +17,19 @@ CHECKS = {
             "the model, and the real graphs (adjacency, components, distances) must equal the spec's for every state.",
             "as C07; notravbuses semantics as implemented (outgoing edges removed)",
             "TLC-enumerated (configuration, options) states replayed; graph equality decided by TLC", "§4 C07/C26"),
+    "C34": ("model_checking",
+            "TLC enumerates every (stored, passed) assignment over every pair of the 17 runpp options (values unset / default / "
+            "non-default), the required resolution function incl. the documented derivations (init, max_iteration) is the "
+            "spec; one set_user_pf_options + runpp per state, net._options compared by TLC. Divergence = violation.",
+            "pairwise interaction coverage only; token meanings in harness/checks/c34.py; known deviations are attributed by "
+            "a named deviation model (ExpectedImpl) evaluated by TLC, never accepted silently",
+            "TLC-enumerated option configurations replayed; decision function equality decided by TLC", "§4 C34"),
+    "C30": ("model_checking",
+            "TLC enumerates every history of <=4 new/register/diagnose actions over two Diagnostic instances; each history is "
+            "replayed on real objects with recording DiagnosticFunctions; TLC compares what every diagnose call ran and saw "
+            "with the stateless abstract model, and the net digest before/after.",
+            "default function set stubbed in the exhaustive part (real set on a seeded sample in thorough); reports not covered",
+            "TLC-generated histories replayed on real objects; observations validated by TLC", "§4 C30"),
 }
 
 NOT_APPLICABLE = {
